@@ -225,9 +225,13 @@ def rule_L4(ctx: Ctx) -> None:
         d = f.param_default("limit")
         ctx.judge(f, isinstance(d, ast.Constant) and d.value is None, {"limit_default": X.U(d)}, "limit defaults to None (all mazes)")
     a = ctx.index.func(f"{LM}.LatticeMaze.as_tokens")
-    ok = "isinstance_by_type_name(maze_tokenizer, 'MazeTokenizerModular')" in X.U(a.node) and "return maze_tokenizer.to_tokens(self)" in X.U(a.node) \
-        and "return self._as_tokens(maze_tokenizer)" in X.U(a.node)
-    ctx.judge(a, ok, {}, "as_tokens dispatches: modular tokenizer -> its to_tokens(self); otherwise the legacy writer")
+    from sa import dtable as DT
+
+    pa = a.params()
+    rows = DT.table(a.node, {"modular": [f"isinstance_by_type_name({pa[1]}, 'MazeTokenizerModular')", f"isinstance({pa[1]}, MazeTokenizerModular)"]})
+    okt, rep = DT.judge_table(rows, lambda asg: (lambda o: o[0] == "return" and X.same_expr(o[1], f"{pa[1]}.to_tokens({pa[0]})", f"{pa[1]}.to_tokens(maze={pa[0]})")) if asg["modular"]
+                              else (lambda o: o[0] == "return" and X.same_expr(o[1], f"{pa[0]}._as_tokens({pa[1]})", f"{pa[0]}._as_tokens(maze_tokenizer={pa[1]})")))
+    ctx.judge(a, okt, {"table": rep}, "as_tokens dispatches: modular tokenizer -> its to_tokens(self); otherwise the legacy writer")
 
 
 def rule_L5(ctx: Ctx) -> None:
@@ -331,9 +335,23 @@ def rule_L5(ctx: Ctx) -> None:
               "coords_to_strings: non-coordinates are skipped / rejected / kept as they are according to when_noncoord; coordinates are converted in order",
               "special tokens are dropped or duplicated while converting between coordinates and strings")
     ic = ctx.index.func(f"{TU}.str_is_coord")
-    t = X.U(ic.node)
-    ok = "coord_str.startswith('(')" in t and "coord_str.endswith(')')" in t and "',' in coord_str" in t and "strip_func(x).isdigit()" in t
-    ctx.judge(ic, ok, {}, "a token is a coordinate iff it is '(' digits ',' digits ... ')'")
+    pi_ = ic.params()
+    samples = [("(1,2)", True), ("(10,3)", True), ("(0,49)", True), ("(12,13)", True), (" (1, 2) ", True), ("(1,2,3)", True), ("<PATH_START>", False), ("(1)", False),
+               ("1,2", False), ("(a,b)", False), ("(1,)", False), ("(,)", False), ("", False), ("<-->", False), (";", False)]
+    bad, unk = [], []
+    for txt_, want in samples:
+        try:
+            got = Evaluator({"__call__": hooks}).run_body(X.body_wo_doc(ic.node), {pi_[0]: txt_, pi_[1]: True})
+        except EvalRaised as e:
+            got = f"raises {e.exc_name}"
+        except Unknown as e:
+            unk.append(str(e)[:120])
+            continue
+        if bool(got) is not want or isinstance(got, str):
+            bad.append({"token": txt_, "found": got, "expected": want})
+    ctx.judge(ic, False if bad else None if unk else True, {"samples": len(samples), "deviations": bad[:3], "undecided": unk[:2]},
+              "a token is a coordinate iff it is '(' digits ',' digits ... ')' - multi-digit indices included",
+              "coordinates with multi-digit (or some) indices are not recognised: from_tokens drops or rejects them on larger grids")
 
 
 def rule_L6(ctx: Ctx) -> None:
@@ -341,7 +359,14 @@ def rule_L6(ctx: Ctx) -> None:
     t = X.U(f.node)
     ed = X.assignments_to(f.node, "edges")
     ok = len(ed) == 1 and X.same_expr(ed[0], "list_split(adj_list_tokens, SPECIAL_TOKENS.ADJACENCY_ENDLINE)")
-    ok = ok and "assert len(e_coords) == 3" in t and "assert e_coords[1] == SPECIAL_TOKENS.CONNECTOR" in t and "coordinates.append((e_coords[0], e_coords[-1]))" in t
+    conv = "maze_tokenizer.strings_to_coords(e, when_noncoord='include')"
+    tests = [X.expand_locals(a_.test, f.node) for a_ in ast.walk(f.node) if isinstance(a_, ast.Assert)]
+    has_len = any(X.relation_in(t_, [f"len({conv}) == 3"])[0] for t_ in tests)
+    has_conn = any(X.relation_in(t_, [f"{conv}[1] == SPECIAL_TOKENS.CONNECTOR"])[0] for t_ in tests)
+    apps = [c_ for c_ in X.method_calls(f.node, "append") if c_.args]
+    elts = [X.expand_locals(c_.args[0], f.node) for c_ in apps] + [X.expand_locals(n_.elt, f.node) for n_ in ast.walk(f.node) if isinstance(n_, ast.ListComp)]
+    keeps = any(X.same_expr(e_, f"({conv}[0], {conv}[-1])", f"({conv}[0], {conv}[2])") for e_ in elts)
+    ok = ok and has_len and has_conn and keeps
     ctx.judge(f, ok, {"edges": X.U(ed[0]) if ed else None}, "edges are the ENDLINE-separated pieces of the adjacency region: exactly [coord, CONNECTOR, coord]; the two coords are kept in order")
     om = X.assignments_to(f.node, "output_maze")
     ok = bool(om) and X.same_expr(om[0], "cls.from_adj_list(adj_list)")
@@ -369,9 +394,32 @@ def rule_L6(ctx: Ctx) -> None:
     ok = got == [["ORIGIN_END", "ORIGIN_START", "TARGET_END", "TARGET_START"], ["PATH_END", "PATH_START"]]
     ctx.judge(f, ok, {"kind_tests": got}, "kind of the parsed maze: targeted iff all four origin/target delimiters are present; solved iff additionally both path delimiters are")
     ft = ctx.index.func(f"{LM}.LatticeMaze.from_tokens")
-    t = X.U(ft.node)
-    ok = "if isinstance(tokens, str):\n        tokens = tokens.split()" in t and "not maze_tokenizer.is_legacy_equivalent()" in t and "return cls._from_tokens_AOTP(tokens, maze_tokenizer)" in t
-    ctx.judge(ft, ok, {}, "from_tokens accepts a list or a space-joined string; only legacy tokenizers and legacy-equivalent modular ones are supported")
+    from sa import dtable as DT
+
+    pf = ft.params()
+    tk, mt = pf[1], pf[2]
+    conv_mt = f"{mt}.to_legacy_tokenizer()"
+    atoms = {"mode_given": [f"isinstance_by_type_name({mt}, 'TokenizationMode')"],
+             "modular": [f"isinstance_by_type_name({mt}, 'MazeTokenizerModular')", f"isinstance_by_type_name({conv_mt}, 'MazeTokenizerModular')"],
+             "legacy_equivalent": [f"{mt}.is_legacy_equivalent()", f"{conv_mt}.is_legacy_equivalent()"],
+             "string_input": [f"isinstance({tk}, str)"],
+             "aotp": [f"{mt}.is_AOTP()", f"{conv_mt}.is_AOTP()"]}
+    rows = DT.table(ft.node, atoms)
+
+    def expected(a):
+        if a["mode_given"] and a["modular"]:
+            return lambda o: True  # a TokenizationMode is converted to a legacy tokenizer: it is not a modular one (combination cannot occur)
+        if a["modular"] and not a["legacy_equivalent"]:
+            return lambda o: o == ("raise", "NotImplementedError")
+        if not a["aotp"]:
+            return lambda o: o == ("raise", "NotImplementedError")
+        m_ = conv_mt if a["mode_given"] else mt
+        t_ = f"{tk}.split()" if a["string_input"] else tk
+        return lambda o: o[0] == "return" and X.same_expr(o[1], f"{pf[0]}._from_tokens_AOTP({t_}, {m_})")
+    okt, rep = DT.judge_table(rows, expected)
+    ctx.judge(ft, okt, {"rows": len(rep), "deviations": [r_ for r_ in rep if r_["ok"] is False][:3], "undecided": [r_ for r_ in rep if r_["ok"] is None][:2]},
+              "from_tokens accepts a list or a space-joined string (split at whitespace); only legacy tokenizers and legacy-equivalent modular ones are supported",
+              "a space-joined token string is not split (or split differently), or unsupported tokenizers are parsed as if legacy")
     at = ctx.index.func(f"{LM}.LatticeMaze._as_tokens")
     cs = [c for c in X.calls(at.node) if X.U(c.func) == "maze_tokenizer.coords_to_strings"]
     ok = len(cs) == 1 and X.same_expr_x(N.kwarg(cs[0], "coords") or (cs[0].args[0] if cs[0].args else None), at.node, "self._as_coords_and_special_AOTP()") \
